@@ -412,9 +412,10 @@ class Check(core.PropertyCheck):
         for i in range(2 if ctx.quick else 12):
             base, _ = C26.build_message("reply", 77, [("MX", "comp"), ("TXT", "plain"), ("SOA", "comp")], rng)
             for cut in range(len(base)):
-                yield core.Scenario({"kind": "wire", "hex": base[:cut].hex(), "cls": "truncated"}, source="random")
-        for cls, buf in fuzz_cases(rng, 1500 if ctx.quick else 40000):
-            yield core.Scenario({"kind": "wire", "hex": buf.hex(), "cls": cls}, source="random")
+                yield core.Scenario({"kind": "wire", "hex": base[:cut].hex(), "cls": "fuzz", "how": "truncated"}, source="random")
+        for how, buf in fuzz_cases(rng, 1500 if ctx.quick else 40000):
+            # one signature class for all mutation kinds: the kind of mutation is not the cause of what is observed
+            yield core.Scenario({"kind": "wire", "hex": buf.hex(), "cls": "fuzz", "how": how}, source="random")
         rows = sorted(table_rows(False))
         for _ in range(300 if ctx.quick else 6000):
             yield core.Scenario({"kind": "rt", "row": list(rng.choice(rows)), "seed": rng.randrange(1 << 30)}, source="random")
